@@ -644,6 +644,192 @@ theorem sess_sim : ∀ (evs : List GEv) (s : Sess) (tbl : Nat → Option Run), (
         | c => simp only; split <;> simp [get_set, hs]
       rw [this]; exact h sid'
 
+/-! ## 4. Where a datagram enters a stream from a UDP socket (`client.RouteUDP`, `Stream.ReadFrom`)
+
+`c14_oversize` is about `Stream.Write`.  A datagram of a local UDP socket reaches the stream through a read
+into a buffer first, and a packet socket silently cuts the datagram to that buffer.  `EntryWhole` is the
+property's sentence for such an entry point, at full strength: *every* non-empty datagram that fits one frame
+goes out whole as exactly one frame, *every* larger one is refused and nothing goes out. -/
+
+/-- the full statement for an entry point `f` (datagram ↦ frames emitted, error) -/
+def EntryWhole (max : Int) (f : Bytes → List Bytes × SOut) : Prop :=
+  ∀ d : Bytes, 0 < d.length →
+    ((d.length : Int) ≤ max → f d = ([d], .ok)) ∧ ((d.length : Int) > max → f d = ([], .errShortBuffer))
+
+theorem pktRead_whole (cap : Nat) (d : Bytes) (h : d.length ≤ cap) : pktRead cap d = d := by
+  unfold pktRead; exact List.take_of_length_le h
+
+theorem pktRead_length (cap : Nat) (d : Bytes) : (pktRead cap d).length = min cap d.length := by
+  unfold pktRead; exact List.length_take
+
+/-- an entry buffer longer than the per-frame maximum makes `RouteUDP` whole: what fits a frame is read whole, and
+what does not fit is still longer than the maximum after the cut, so `Stream.Write` refuses it -/
+theorem entry_whole_of (buf : Nat) (max : Int) (h0 : 0 < buf) (h : max < (buf : Int)) : EntryWhole max (udpEntryAt buf max) := by
+  intro d hpos
+  unfold udpEntryAt
+  constructor
+  · intro hle
+    rw [pktRead_whole buf d (by omega)]
+    exact (c14_oversize max d).2 hpos hle
+  · intro hgt
+    have hl := pktRead_length buf d
+    refine (c14_oversize max (pktRead buf d)).1 ?_ ?_
+    · rw [hl]; omega
+    · rw [hl]; omega
+
+/-- with a buffer that is NOT longer than the maximum, a longer datagram goes out as a frame holding only its
+first `buf` bytes — accepted, truncated, delivered -/
+theorem entry_truncates (buf : Nat) (max : Int) (d : Bytes) (hb : 0 < buf) (h1 : buf < d.length) (h2 : (buf : Int) ≤ max) :
+    udpEntryAt buf max d = ([d.take buf], .ok) ∧ (d.take buf).length = buf := by
+  have hl := pktRead_length buf d
+  unfold udpEntryAt
+  refine ⟨?_, ?_⟩
+  · have := (c14_oversize max (pktRead buf d)).2 (by rw [hl]; omega) (by rw [hl]; omega)
+    simpa [pktRead] using this
+  · rw [List.length_take]; omega
+
+/-- facts of `client.RouteUDP`: the entry buffer is longer than the largest datagram one frame can carry with the
+client's on-wire limit, in fact at least the largest UDP payload (65507); the bytes read are the bytes written;
+a refusal drops the stream and the loop goes on (behaviour kept) -/
+theorem gen_entry :
+    Gen.Datagram.routeUDPBufLen ≥ DG.maxUnit Gen.Datagram.appDataMaxLengthClient + 1 ∧
+    Gen.Datagram.routeUDPBufLen ≥ 65507 ∧
+    Gen.Datagram.routeUDPWritesWhatWasRead = true ∧ Gen.Datagram.routeUDPRefusalDropsStream = true := by decide
+
+/-- **C14 (UDP entry of the client).** `client.RouteUDP` on a session with Cloak's on-wire limit: every datagram of
+1..16132 bytes read from the local socket is sent whole as one frame, every longer one is refused by `Stream.Write`
+and nothing is sent. -/
+theorem c14_entry_whole :
+    EntryWhole (DG.maxUnit Gen.Datagram.appDataMaxLengthClient) (udpEntry (DG.maxUnit Gen.Datagram.appDataMaxLengthClient)) := by
+  have h := gen_entry.1
+  have hm := gen_max_cloak.2.1
+  unfold udpEntry
+  rw [hm] at h ⊢
+  apply entry_whole_of <;> omega
+
+/-- for every session limit: any datagram UDP can carry (≤ 65507 bytes) passes the entry buffer untouched, so
+`c14_oversize` decides about it -/
+theorem c14_entry_transparent (max : Int) (d : Bytes) (h : d.length ≤ 65507) : udpEntry max d = swrite true max d := by
+  have hb := gen_entry.2.1
+  unfold udpEntry udpEntryAt
+  rw [pktRead_whole _ d (by omega)]
+
+/-- the pinned tree read the socket with `make([]byte, 8192)`: the statement is false for it (an 8193-byte datagram
+fits a frame and goes out as an 8192-byte message) -/
+theorem entry_not_whole (buf : Nat) (max : Int) (hb : 0 < buf) (h2 : (buf : Int) < max) : ¬ EntryWhole max (udpEntryAt buf max) := by
+  intro h
+  have hlen : (List.replicate (buf + 1) (0 : UInt8)).length = buf + 1 := List.length_replicate
+  have h1 := (h (List.replicate (buf + 1) 0) (by rw [hlen]; omega)).1 (by rw [hlen]; omega)
+  have h2 := entry_truncates buf max (List.replicate (buf + 1) 0) hb (by rw [hlen]; omega) (by omega)
+  rw [h2.1] at h1
+  have h3 : (List.take buf (List.replicate (buf + 1) (0 : UInt8))).length = (List.replicate (buf + 1) (0 : UInt8)).length := by
+    have := congrArg (fun x : List Bytes × SOut => x.1.map List.length) h1
+    simpa using this
+  rw [h2.2, hlen] at h3
+  omega
+
+theorem c14_entry_pinned_witness : ¬ EntryWhole 16132 (udpEntryAt 8192 16132) :=
+  entry_not_whole 8192 16132 (by omega) (by omega)
+
+/-- … and every datagram longer than 8192 bytes went out as its first 8192 bytes, whatever its size -/
+theorem c14_entry_pinned_truncates (d : Bytes) (h : 8192 < d.length) :
+    udpEntryAt 8192 16132 d = ([d.take 8192], .ok) ∧ (d.take 8192).length = 8192 :=
+  entry_truncates 8192 16132 d (by omega) h (by omega)
+
+/-- small-scale instance: buffer 3, maximum 5 — a 4-byte datagram is truncated; buffer 6 — whole, and 6 bytes refused -/
+example : udpEntryAt 3 5 [1, 2, 3, 4] = ([[1, 2, 3]], .ok) ∧ udpEntryAt 6 5 [1, 2, 3, 4] = ([[1, 2, 3, 4]], .ok) ∧
+    udpEntryAt 6 5 [1, 2, 3, 4, 5, 6] = ([], .errShortBuffer) ∧ udpEntryAt 6 5 [1, 2, 3, 4, 5, 6, 7, 8] = ([], .errShortBuffer) := by decide
+
+/-! ### `Stream.ReadFrom` -/
+
+/-- facts of `Stream.ReadFrom`: a packet source on an unordered session is read with ONE byte more than a frame can
+carry; every other source with exactly the maximum (byte-stream behaviour unchanged); the bytes read are the frame -/
+theorem gen_readfrom (max : Int) :
+    Gen.Datagram.readFromLen max true true = max + 1 ∧ Gen.Datagram.readFromLen max true false = max ∧
+    Gen.Datagram.readFromLen max false true = max ∧ Gen.Datagram.readFromLen max false false = max ∧
+    Gen.Datagram.readFromSendsWhatWasRead = true := by
+  exact ⟨by simp [Gen.Datagram.readFromLen], by simp [Gen.Datagram.readFromLen], by simp [Gen.Datagram.readFromLen],
+    by simp [Gen.Datagram.readFromLen], by decide⟩
+
+/-- the size test after the read: more than a frame can carry → `io.ErrShortBuffer` before anything is sent -/
+theorem gen_readfrom_refuses (r max : Int) : Gen.Datagram.readFromRefuses r max = decide (r > max) := by
+  unfold Gen.Datagram.readFromRefuses
+  first
+  | rfl
+  | (rw [Bool.eq_iff_iff]; simp only [decide_eq_true_eq]; omega)
+
+/-- the longer read still lies inside the pooled send buffer (`make([]byte, streamSendBufferSize)`): no slice panic -/
+theorem gen_readfrom_room (limit : Int) (p u : Bool) :
+    Gen.Datagram.frameHeaderLen + Gen.Datagram.readFromLen (Gen.Datagram.maxStreamUnitWrite limit) p u
+      ≤ Gen.Datagram.streamSendBufferSize limit := by
+  have h := gen_readfrom (Gen.Datagram.maxStreamUnitWrite limit)
+  have hm := gen_max limit
+  have hh : Gen.Datagram.frameHeaderLen = 14 := by decide
+  unfold Gen.Datagram.streamSendBufferSize
+  rw [hh]
+  cases p <;> cases u
+  · rw [h.2.2.2.1]; omega
+  · rw [h.2.2.1]; omega
+  · rw [h.2.1]; omega
+  · rw [h.1]; omega
+
+/-- `readFromAt` with one spare byte and the `> max` test is whole -/
+theorem readfrom_whole_of (max : Nat) : EntryWhole (max : Int) (readFromAt (max + 1) (fun k => decide ((k : Int) > (max : Int)))) := by
+  intro d hpos
+  have hl := pktRead_length (max + 1) d
+  unfold readFromAt
+  constructor
+  · intro hle
+    have hle' : d.length ≤ max := by omega
+    rw [pktRead_whole (max + 1) d (by omega)]
+    have : ¬ ((d.length : Int) > (max : Int)) := by omega
+    simp [this]
+  · intro hgt
+    have : ((pktRead (max + 1) d).length : Int) > (max : Int) := by rw [hl]; omega
+    simp [this]
+
+/-- **C14 (UDP entry of the server).** `Stream.ReadFrom` on an unordered stream fed by a packet source: every datagram
+of 1..max bytes goes out whole as one frame, every longer one is refused (`io.ErrShortBuffer`) and nothing goes out. -/
+theorem c14_readfrom_whole (max : Nat) : EntryWhole (max : Int) (readFromPkt true (max : Int)) := by
+  have h := readfrom_whole_of max
+  unfold readFromPkt
+  rw [(gen_readfrom (max : Int)).1]
+  have : (fun k : Nat => Gen.Datagram.readFromRefuses (k : Int) (max : Int)) = (fun k : Nat => decide ((k : Int) > (max : Int))) := by
+    funext k; exact gen_readfrom_refuses _ _
+  rw [this]
+  have hn : ((max : Int) + 1).toNat = max + 1 := by omega
+  rw [hn]; exact h
+
+/-- byte-stream sources are treated as before the repair: read length = the maximum, never refused, so the frames are
+the consecutive chunks of at most `max` bytes (one step of the loop shown) -/
+theorem c14_readfrom_stream_unchanged (u : Bool) (max : Nat) (rest : Bytes) (sent : List Bytes) (fuel : Nat) (h : 0 < rest.length) :
+    readFromStreamLoop (Gen.Datagram.readFromLen (max : Int) false u).toNat (fun k => Gen.Datagram.readFromRefuses (k : Int) (max : Int)) (fuel + 1) rest sent
+      = readFromStreamLoop max (fun k => Gen.Datagram.readFromRefuses (k : Int) (max : Int)) fuel (rest.drop max) (sent ++ [rest.take max]) := by
+  have hl : (Gen.Datagram.readFromLen (max : Int) false u).toNat = max := by
+    cases u
+    · rw [(gen_readfrom (max : Int)).2.2.2.1]; omega
+    · rw [(gen_readfrom (max : Int)).2.2.1]; omega
+  rw [hl, readFromStreamLoop]
+  have h0 : ¬ rest.length = 0 := by omega
+  have hr : Gen.Datagram.readFromRefuses ((min max rest.length : Nat) : Int) (max : Int) = false := by
+    rw [gen_readfrom_refuses]; simp only [decide_eq_false_iff_not]; omega
+  simp [h0, hr]
+
+/-- the pinned tree read with exactly `max` bytes of room and had no size test: the statement is false for it (a
+16133-byte datagram goes out as a 16132-byte message) -/
+theorem readfrom_not_whole (max : Nat) : ¬ EntryWhole (max : Int) (readFromAt max (fun _ => false)) := by
+  intro h
+  have hlen : (List.replicate (max + 1) (0 : UInt8)).length = max + 1 := List.length_replicate
+  have h1 := (h (List.replicate (max + 1) 0) (by rw [hlen]; omega)).2 (by rw [hlen]; omega)
+  simp [readFromAt] at h1
+
+theorem c14_readfrom_pinned_witness : ¬ EntryWhole 16132 (readFromAt 16132 (fun _ => false)) :=
+  readfrom_not_whole 16132
+
+example : readFromAt 6 (fun k => decide ((k : Int) > 5)) [1, 2, 3, 4, 5] = ([[1, 2, 3, 4, 5]], .ok) ∧
+    readFromAt 6 (fun k => decide ((k : Int) > 5)) [1, 2, 3, 4, 5, 6, 7] = ([], .errShortBuffer) ∧
+    readFromAt 5 (fun _ => false) [1, 2, 3, 4, 5, 6, 7] = ([[1, 2, 3, 4, 5]], .ok) := by decide
+
 end C14
 
 #print axioms C14.c14_inv
@@ -654,3 +840,5 @@ end C14
 #print axioms C14.c14_isolation
 #print axioms C14.gen_structure
 #print axioms C14.c14_exactly_once
+#print axioms C14.c14_entry_whole
+#print axioms C14.c14_readfrom_whole
